@@ -25,6 +25,15 @@ var rawValues = []string{"nil", "int", "string", "struct", "ptr", "nilfunc", "ni
 
 var rawAsValues = []string{"nil", "int", "ptrstruct", "ptrptr", "iface", "ptrerr", "ptrany", "func", "I0", "I1", "I2"}
 
+// types for fields carrying hostile tags: pool types plus a few whose
+// reflect.Type has no Elem()
+func (g *gen) tagFieldParam(lbl string) Param {
+	if g.pct(35, lbl+"h") {
+		return Param{Host: g.pickStr([]string{"int", "string", "any", "HPlain", "error", "map", "chan", "arr"}, lbl+"ht")}
+	}
+	return Param{T: g.pickStr(append(append([]string{}, g.k.Types...), "S0", "S1"), lbl+"t")}
+}
+
 // a valid-looking base function for scope s
 func (g *gen) baseFn(s int) *Fn {
 	f := g.newFn()
@@ -81,7 +90,8 @@ func (g *gen) genBadProvide(s int) Op {
 	case 9: // malformed tag on a result-object field
 		f.R = []Result{{IsObj: true, Obj: []Result{{T: g.pickStr(g.k.Types, "rt"), Tag: g.pickStr(hostileTags, "rtag")}}}}
 	case 10: // malformed tag on a parameter-object field
-		p := Param{T: g.pickStr(g.k.Types, "pt"), Tag: g.pickStr(hostileTags, "ptag")}
+		p := g.tagFieldParam("pt")
+		p.Tag = g.pickStr(hostileTags, "ptag")
 		if g.pct(50, "pslice") {
 			p.Group = "g" // slice-typed field
 		}
@@ -168,7 +178,8 @@ func (g *gen) genBadDecorate(s int) Op {
 		f.R = nil
 		f.Err = g.pct(50, "de")
 	default:
-		p := Param{T: "T1", Tag: g.pickStr(hostileTags, "dptag")}
+		p := g.tagFieldParam("dpt")
+		p.Tag = g.pickStr(hostileTags, "dptag")
 		f.P = append(f.P, Param{IsObj: true, Obj: []Param{p}})
 	}
 	op := Op{K: OpDecorate, S: s, F: f}
@@ -186,7 +197,9 @@ func (g *gen) genBadInvoke(s int) Op {
 	case 1:
 		f.P = []Param{g.hostParam("ihp")}
 	case 2:
-		f.P = []Param{{IsObj: true, Obj: []Param{{T: "T0", Tag: g.pickStr(hostileTags, "itag")}}}}
+		p := g.tagFieldParam("ipt")
+		p.Tag = g.pickStr(hostileTags, "itag")
+		f.P = []Param{{IsObj: true, Obj: []Param{p}}}
 	case 3:
 		f.P = []Param{{IsObj: true, Obj: []Param{{T: "T0", Group: "g", Tag: g.pickStr(hostileTags, "itag2")}}}}
 	case 4:
